@@ -62,10 +62,24 @@ Definition step (lower : str -> str) (s : st) (row : list str) : st :=
             {| bk := bput sn (VRows (rows ++ [zip_filled hs c])) (bk s1); sheet := sheet s1; headers := headers s1 |}
         end
       else s1
+  | None, Some sn =>
+      (* a blank row (two or more cells, all empty) below the header row of a supported sheet is kept: row numbers stay those of the table *)
+      match maybe, row, headers s1 with
+      | None, _ :: _ :: _, Some _ =>
+          if mem sn SUPPORTED_SHEET_NAMES then
+            let rows := match bget sn (bk s1) with Some (VRows r) => r | _ => [] end in
+            {| bk := bput sn (VRows (rows ++ [[]])) (bk s1); sheet := sheet s1; headers := headers s1 |}
+          else s1
+      | _, _, _ => s1
+      end
   | _, _ => s1
   end.
+(* below the last row of a sheet blank rows mean nothing: they are dropped at the end *)
+Fixpoint drop_blank_front (l : list dictrow) : list dictrow := match l with [] :: r => drop_blank_front r | _ => l end.
+Definition trim_rows (l : list dictrow) : list dictrow := rev (drop_blank_front (rev l)).
+Definition trim_val (v : val) : val := match v with VRows r => VRows (trim_rows r) | _ => v end.
 Definition csv_book (lower : str -> str) (rows : list (list str)) : book :=
-  bk (fold_left (step lower) rows {| bk := [(k_sheet_names, VNames [])]; sheet := None; headers := None |}).
+  map (fun e => (fst e, trim_val (snd e))) (bk (fold_left (step lower) rows {| bk := [(k_sheet_names, VNames [])]; sheet := None; headers := None |})).
 
 (* renderer for the correspondence check *)
 Definition show_val (v : val) : str :=
